@@ -1,7 +1,7 @@
 (* Glue for the C13 correspondence.  The arithmetic carrier is instantiated with the FREE term
    algebra `sym` (so `value` computes the exact evaluation order as a term; the harness evaluates the
    term with Python's decimal).  Scalars handed to an operator arrive as `SExt neg abs_text`
-   (neg = `d < 0`, abs_text = `str(abs(d))`, both computed by Python's decimal). *)
+   (neg = `d < 0`, abs_text = `format(abs(d), 'f')` (plain notation), both computed by Python's decimal). *)
 From AB Require Import Prelude NumExpr.
 
 Inductive sym :=
